@@ -109,7 +109,7 @@ func c16FlowControl(c *Check) {
 		fi := p.Info(lentries)
 		maxP := fi.Sym(lentries.Params[2])
 		for _, ret := range returnsOf(fi) {
-			v := fi.Sym(ret.Results[0])
+			v := fi.RetSym(ret, 0)
 			if v.K == KNil {
 				continue
 			}
@@ -193,7 +193,7 @@ func c16FlowControl(c *Check) {
 		bytesF, maxBytes := p.Field("tracker", "Inflights", "bytes"), p.Field("tracker", "Inflights", "maxBytes")
 		spec := bfOr(bfCmp(FieldOf(in, cnt), "==", FieldOf(in, size)), bfAnd(bfCmp(FieldOf(in, maxBytes), "!=", constSym(0)), bfCmp(FieldOf(in, bytesF), ">=", FieldOf(in, maxBytes))))
 		for _, ret := range returnsOf(fi) {
-			code := fi.valueBF(ret.Results[0], 0)
+			code := fi.valueBF(fi.RetVal(ret, 0), 0)
 			// safety direction: whenever the spec says full, the code says full
 			ok, why := bfImplies(spec, code)
 			c.Result(ok, "C16.I", "Inflights.Full", fnName(inflFull), p.site(ret), "count == size || (maxBytes != 0 && bytes >= maxBytes) implies Full()", code.String()+" "+why)
@@ -241,7 +241,7 @@ func c16FlowControl(c *Check) {
 		for _, ret := range returnsOf(fi) {
 			f := fi.FactsAt(ret)
 			if f.EnumFact(FieldOf(pr, stateF), snapshotSt) == 1 {
-				v := fi.Sym(ret.Results[0])
+				v := fi.RetSym(ret, 0)
 				okSnap = v.K == KConst && v.C != nil && v.C.String() == "true"
 			}
 		}
@@ -270,7 +270,7 @@ func c16Slice(c *Check, lslice, limitSize, extend, entsSize *ssa.Function) {
 	}
 	full := func(b *Sym) bool { return b.Key() == maxP.Key() }
 	for _, ret := range returnsOf(fi) {
-		v := fi.Sym(ret.Results[0])
+		v := fi.RetSym(ret, 0)
 		site := p.site(ret)
 		if v.K == KNil {
 			continue
@@ -318,7 +318,7 @@ func c16LimitSize(c *Check, limitSize *ssa.Function) {
 	ents := fi.Sym(limitSize.Params[0])
 	maxP := fi.Sym(limitSize.Params[1])
 	for _, ret := range returnsOf(fi) {
-		v := fi.Sym(ret.Results[0])
+		v := fi.RetSym(ret, 0)
 		site := p.site(ret)
 		if v.Key() == ents.Key() {
 			continue // whole input
@@ -392,7 +392,7 @@ func c16Uncommitted(c *Check) {
 	}
 	// the rejecting path returns false without appending or sending
 	for _, ret := range returnsOf(fi) {
-		v := fi.Sym(ret.Results[0])
+		v := fi.RetSym(ret, 0)
 		if !(v.K == KConst && v.C != nil && v.C.String() == "false") {
 			continue
 		}
@@ -419,7 +419,7 @@ func c16Uncommitted(c *Check) {
 	sum := &Sym{K: KBin, Name: "+", Args: []*Sym{un, s}}
 	reject := bfAnd(bfCmp(un, ">", constSym(0)), bfCmp(s, ">", constSym(0)), bfCmp(sum, ">", mx))
 	for _, ret := range returnsOf(ifi) {
-		v := ifi.Sym(ret.Results[0])
+		v := ifi.RetSym(ret, 0)
 		isFalse := v.K == KConst && v.C != nil && v.C.String() == "false"
 		isTrue := v.K == KConst && v.C != nil && v.C.String() == "true"
 		spec := reject
@@ -481,7 +481,7 @@ func c16Uncommitted(c *Check) {
 				f := sfi.FactsAt(ret)
 				tested := &Facts{FI: sfi, Atoms: f.Tested}
 				if tested.HasBool(func(s *Sym) bool { return s.V == ssa.Value(call) }, false) != nil {
-					rv := sfi.Sym(ret.Results[0])
+					rv := sfi.RetSym(ret, 0)
 					if strings.Contains(rv.Key(), "ErrProposalDropped") {
 						ok = true
 					}
